@@ -87,7 +87,7 @@ def finish_slots(c):
         loc = spec_loc(sp)
         if loc is None or "/t" in sp:
             continue
-        if re.search(r"/S", sp) and word_token(c, loc) != "@BAD":
+        if re.search(r"/S", sp) and word_token(c, loc) not in ("@BAD", "@BRK"):
             a = ["obj", a]
         slots["%s:%d" % loc] = a[:2] if a[0] == "int" else a
     c["slots"] = slots
@@ -444,8 +444,9 @@ class Gen:
             self._c["actual"].append(["null"])
             self._c["tags"].append("str=NULL")
         elif k < 0.16:
-            self.put(where, "@BAD")
-            self._c["actual"].append(["bad"])
+            tok = r.choice(["@BAD", "@BRK"])      # a PROT_NONE page / the gap behind the heap (repaired: 9eb50dd)
+            self.put(where, tok)
+            self._c["actual"].append(["bad", tok])
             self._c["tags"].append("str=unreadable")
         else:
             s = self.string(n)
@@ -467,7 +468,7 @@ class Gen:
         k = r.random()
         if k < 0.1:
             self.put(where, "@BAD")                # unreadable object: shown as its address
-            c["actual"].append(["bad"])
+            c["actual"].append(["bad", "@BAD"])
         else:
             inner = r.choice(["str", "str", "str", "null", "bad"])
             if inner == "str":
@@ -477,7 +478,7 @@ class Gen:
             elif inner == "null":
                 s, tok, av = b"", 0, ["null"]
             else:
-                s, tok, av = b"", "@BAD", ["bad"]
+                s, tok, av = b"", "@BAD", ["bad", "@BAD"]
             j = len(c["strings"]) + len(c["objs"])
             c["objs"][j] = [tok, len(s), self.word()]
             self.put(where, "@S%d" % j)
@@ -567,8 +568,8 @@ class Gen:
                 c["ret"][0] = 0
                 c["ractual"].append(["null"])
             elif q < 0.2:
-                c["ret"][0] = "@BAD"
-                c["ractual"].append(["bad"])
+                c["ret"][0] = r.choice(["@BAD", "@BRK"])
+                c["ractual"].append(["bad", c["ret"][0]])
             else:
                 s = self.string()
                 i = self.new_string(s)
@@ -864,14 +865,14 @@ class Impl:
         for _ in range(4):
             next(it)
         a = next(it).split()
-        f0, bad = int(a[1]), int(a[2])
+        f0, bad, brk = int(a[1]), int(a[2]), int(a[3])
         for c in cases:
             nobj = len(c["strings"]) + len(c["objs"])
             saddr = {}
             for i in range(nobj):
                 next(it)
                 saddr[i] = int(next(it).split()[1])
-            c["env"] = {"f0": f0, "bad": bad, "saddr": saddr}
+            c["env"] = {"f0": f0, "bad": bad, "brk": brk, "saddr": saddr}
             sp = next(it)[6:].split(" | ")
             c["tflags"] = int(sp[0].split()[0])
             c["mspecs"] = []
@@ -1062,6 +1063,8 @@ def resolve(c, t):
     if isinstance(t, str):
         if t == "@BAD":
             return c["env"]["bad"]
+        if t == "@BRK":
+            return c["env"]["brk"]
         if t.startswith("@S"):
             return c["env"]["saddr"][int(t[2:])]
         if t.startswith("@F"):
@@ -1088,7 +1091,7 @@ def coq_aval(c, a):
     if a[0] == "null":
         return "ANull"
     if a[0] == "bad":
-        return "ABad %s" % num(c["env"]["bad"])
+        return "ABad %s" % num(resolve(c, a[1] if len(a) > 1 else "@BAD"))
     if a[0] == "sym":
         return "ASym %s %s" % (num(c["env"]["f0"] + 256 * (a[1] % 32)), nlist(b"fn%02d" % (a[1] % 32)))
     if a[0] == "flt":
@@ -1218,7 +1221,7 @@ def fits(c, pspecs, actual):
         elif a[0] == "null":
             n += 8
         elif a[0] == "bad":
-            n += ALIGN(len("<%#x>" % c["env"]["bad"]) + 2, 4)
+            n += ALIGN(len("<%#x>" % resolve(c, a[1] if len(a) > 1 else "@BAD")) + 2, 4)
         else:
             n += ALIGN(sp["size"], 4)
     return n <= MAX_SIZE
